@@ -281,10 +281,23 @@ class Stepped(dulprovider.DULServiceProvider):
         install()
         self.tlog = []
         super(Stepped, self).__init__(store_in_file, get_file_cb, dul_socket, max_pdu_length)
-        # keep the real timer semantics, record the calls
-        self.timer = RecTimer(artim, self.tlog)
-        self.state_machine.timer = self.timer
-        self.to_service_user = RecQueue()
+        # keep the timer and the queue the library made for itself (their period, their capacity); record the calls
+        t = self.timer
+        try:
+            t.__class__ = type('Rec' + type(t).__name__, (RecTimer, type(t)), {})
+            t.log = self.tlog
+        except TypeError:
+            self.timer = RecTimer(artim, self.tlog)
+            self.state_machine.timer = self.timer
+        if artim != 10:
+            self.timer._max_seconds = artim
+        q = self.to_service_user
+        q_put = q.put
+
+        def put(item, *a, **kw):
+            LOG.append(('ind', item))
+            return q_put(item, *a, **kw)
+        q.put = put
         self.crashed = None
 
     def step(self):
